@@ -262,3 +262,116 @@ def search_e2e(ck, sr, drv, tier: str) -> None:
         sr.distinct = len(seen)
     finally:
         shutil.rmtree(tmp, ignore_errors=True)
+
+
+# --------------------------------------------------------------------------------------------------
+# decoded metacharacters through EVERY entry point (added after seeded change C20b: glob() decoded
+# after brace/split expansion, every other entry point was still right)
+
+_META_NAMES = {'{': 'LEFT CURLY BRACKET', '}': 'RIGHT CURLY BRACKET', ',': 'COMMA', '|': 'VERTICAL LINE', '*': 'ASTERISK',
+               '?': 'QUESTION MARK', '[': 'LEFT SQUARE BRACKET', ']': 'RIGHT SQUARE BRACKET', '(': 'LEFT PARENTHESIS',
+               ')': 'RIGHT PARENTHESIS', '!': 'EXCLAMATION MARK', '-': 'HYPHEN-MINUS', '@': 'COMMERCIAL AT', '+': 'PLUS SIGN'}
+
+
+def _spellings(ch: str, isb: bool) -> list[str]:
+    o = ord(ch)
+    sp = ['\\x%02x' % o, '\\%03o' % o]
+    if not isb:
+        sp += ['\\u%04x' % o, '\\U%08x' % o, '\\N{%s}' % _META_NAMES[ch]]
+    return sp
+
+
+def search_meta_entry_points(ck, sr, drv, tier: str) -> None:
+    """For decoded patterns D built around one metacharacter each, and every spelling E of that
+    metacharacter as an escape: api(E-pattern, flags|RAWCHARS) == api(D, flags) for EVERY entry point
+    (fnmatch / filter / translate / compile, globmatch / globfilter / glob.translate / glob / iglob /
+    glob.compile, WcMatch, pathlib glob / rglob / match / globmatch) — decoding precedes brace
+    expansion, splitting, sign detection and parsing everywhere."""
+    from wcmatch import fnmatch as F, glob as G, wcmatch as WM, pathlib as WP
+    sr.note = search_meta_entry_points.__doc__.replace('\n    ', ' ')
+    # (decoded template with the metacharacters to spell, flags that make them magic)
+    templates = [('{a,b}', '{', F.BRACE), ('{a,b}', ',', F.BRACE), ('{a,b}', '}', F.BRACE), ('x{a,b}', '{', F.BRACE | F.SPLIT),
+                 ('a|b', '|', F.SPLIT), ('x|a|*b', '|', F.SPLIT | F.BRACE), ('*', '*', 0), ('?', '?', 0), ('a?', '?', F.SPLIT),
+                 ('[ab]', '[', 0), ('[ab]', ']', 0), ('@(a|b)', '(', F.EXTMATCH), ('@(a|b)', '@', F.EXTMATCH),
+                 ('@(a|b)', '|', F.EXTMATCH), ('+(a)', '+', F.EXTMATCH), ('!(a)', '!', F.EXTMATCH), ('!a', '!', F.NEGATE),
+                 ('-a', '-', F.NEGATE | F.MINUSNEGATE), ('*|!a', '!', F.NEGATE | F.SPLIT), ('d/{A,x41}', '{', F.BRACE),
+                 ('d/*', '*', 0), ('**/A', '*', G.GLOBSTAR)]
+    tmp = tempfile.mkdtemp(prefix='c20m-', dir='/tmp')
+    names = ['a', 'b', 'ab', 'A', 'x', 'xa', 'xb', '{a,b}', 'a|b', '*', '?', 'a?', '[ab]', '@(a|b)', '+(a)', '!(a)', '!a', '-a',
+             'd/A', 'd/x41', 'd/{A,x41}', 'x{a,b}', 'aa', 'bb']
+    try:
+        os.makedirs(os.path.join(tmp, 'd'))
+        for f in names:
+            if '/' in f and not f.startswith('d/'):
+                continue
+            try:
+                open(os.path.join(tmp, f), 'w').close()
+            except OSError:
+                pass
+        nfail = 0
+        for isb in (False, True):
+            conv = (lambda s: s.encode('latin-1')) if isb else (lambda s: s)
+            root = conv(tmp)
+            for dec, ch, fl in templates:
+                for sp in _spellings(ch, isb):
+                    for pos in range(len(dec)):
+                        if dec[pos] != ch:
+                            continue
+                        esc = dec[:pos] + sp + dec[pos + 1:]
+                        # the specification's decoder must agree that esc decodes to dec
+                        m = model_norm(drv, [(esc, 1 if isb else 0, 0, 1)])[0]
+                        if m != 'ok ' + dec:
+                            continue
+                        gfl = fl | (G.GLOBSTAR if '**' in dec else 0)
+                        apis = [
+                            ('fnmatch.fnmatch', lambda p, x: [F.fnmatch(conv(n), p, flags=fl | x) for n in names]),
+                            ('fnmatch.filter', lambda p, x: F.filter([conv(n) for n in names], p, flags=fl | x)),
+                            ('fnmatch.translate', lambda p, x: F.translate(p, flags=fl | x)),
+                            ('fnmatch.compile', lambda p, x: [F.compile(p, flags=fl | x).match(conv(n)) for n in names]),
+                            ('glob.globmatch', lambda p, x: [G.globmatch(conv(n), p, flags=gfl | x) for n in names]),
+                            ('glob.globfilter', lambda p, x: G.globfilter([conv(n) for n in names], p, flags=gfl | x)),
+                            ('glob.translate', lambda p, x: G.translate(p, flags=gfl | x)),
+                            ('glob.compile', lambda p, x: [G.compile(p, flags=gfl | x).match(conv(n)) for n in names]),
+                            ('glob.glob', lambda p, x: sorted(G.glob(p, flags=gfl | x, root_dir=root))),
+                            ('glob.iglob', lambda p, x: sorted(G.iglob(p, flags=gfl | x, root_dir=root))),
+                            ('glob.glob[list]', lambda p, x: sorted(G.glob([p], flags=gfl | x, root_dir=root))),
+                            ('wcmatch.WcMatch', lambda p, x: sorted(WM.WcMatch(root, p, flags=WM.RECURSIVE | (fl & (F.EXTMATCH | F.BRACE | F.MINUSNEGATE)) | (WM.RAWCHARS if x else 0)).match())),
+                            ('wcmatch.WcMatch[exclude]', lambda p, x: sorted(WM.WcMatch(root, conv('*'), p, flags=WM.RECURSIVE | (fl & (F.EXTMATCH | F.BRACE | F.MINUSNEGATE)) | (WM.RAWCHARS if x else 0)).match())),
+                        ]
+                        if not isb:
+                            pfl = gfl & ~(F.FORCEWIN | F.FORCEUNIX)
+                            apis += [
+                                ('pathlib.Path.glob', lambda p, x: sorted(str(q) for q in WP.Path(tmp).glob(p, flags=pfl | x))),
+                                ('pathlib.Path.rglob', lambda p, x: sorted(str(q) for q in WP.Path(tmp).rglob(p, flags=pfl | x))),
+                                ('pathlib.PurePath.match', lambda p, x: [WP.PurePosixPath(n).match(p, flags=pfl | x) for n in names]),
+                                ('pathlib.PurePath.globmatch', lambda p, x: [WP.PurePosixPath(n).globmatch(p, flags=pfl | x) for n in names]),
+                            ]
+                        for api, call in apis:
+                            sr.evaluations += 1
+
+                            def run(pat, extra):
+                                try:
+                                    with common.time_limit(5):
+                                        return ('ok', call(pat, extra))
+                                except common.CallTimeout:
+                                    return ('timeout', None)
+                                except Exception as e:  # noqa: BLE001
+                                    return ('exc', type(e).__name__)
+                            obs = run(conv(esc), F.RAWCHARS)
+                            exp = run(conv(dec), 0)
+                            if 'timeout' in (obs[0], exp[0]):
+                                continue
+                            k = api
+                            sr.histogram[k] = sr.histogram.get(k, 0) + 1
+                            if obs != exp:
+                                nfail += 1
+                                ck.report(Failing(
+                                    f'{api}: an escape that decodes to the metacharacter {ch!r} does not act as that metacharacter',
+                                    {'api': api, 'pattern': esc, 'bytes': isb, 'flags': fl, 'decoded_by_spec': dec,
+                                     'names': names if 'match' in api or 'filter' in api or 'compile' in api else 'tree'},
+                                    repr(exp)[:600], repr(obs)[:600], site='norm_pattern call sites: _wcparse.py translate/compile_pattern, glob.py Glob._iter_patterns'))
+                            elif len(sr.samples) < 3 and exp[0] == 'ok' and exp[1]:
+                                sr.samples.append({'api': api, 'pattern': esc, 'decoded': dec, 'flags': fl, 'result': repr(exp[1])[:100]})
+                        sr.distinct += 1
+    finally:
+        shutil.rmtree(tmp, ignore_errors=True)
